@@ -229,8 +229,8 @@ theorem locate_in (N : Nat) (x : Nat → Rat) (st : LState) (v : Rat) (h : ¬ (v
 
 /-- the index in the 1 % extrapolation zone; it does not involve the search state -/
 def edgeIdx (N : Nat) (x : Nat → Rat) (v : Rat) : Except Err Nat :=
-  if rabs (v - x 0) < (1 : Rat) / 100 * (x 1 - x 0) then .ok 0
-  else if rabs (v - x (N - 1)) < (1 : Rat) / 100 * (x (N - 1) - x (N - 2)) then .ok (N - 2)
+  if rabs (v - x 0) ≤ (1 : Rat) / 100 * (x 1 - x 0) then .ok 0
+  else if rabs (v - x (N - 1)) ≤ (1 : Rat) / 100 * (x (N - 1) - x (N - 2)) then .ok (N - 2)
   else .error .diag
 
 theorem locate_out (N : Nat) (x : Nat → Rat) (st : LState) (v : Rat) (h : v < x 0 ∨ v > x (N - 1)) :
@@ -239,10 +239,10 @@ theorem locate_out (N : Nat) (x : Nat → Rat) (st : LState) (v : Rat) (h : v < 
       | .error e => .error e := by
   unfold locate edgeIdx
   simp only [h, if_true]
-  by_cases h1 : rabs (v - x 0) < (1 : Rat) / 100 * (x 1 - x 0)
+  by_cases h1 : rabs (v - x 0) ≤ (1 : Rat) / 100 * (x 1 - x 0)
   · simp only [h1, if_true]; rfl
   · simp only [h1, if_false]
-    by_cases h2 : rabs (v - x (N - 1)) < (1 : Rat) / 100 * (x (N - 1) - x (N - 2))
+    by_cases h2 : rabs (v - x (N - 1)) ≤ (1 : Rat) / 100 * (x (N - 1) - x (N - 2))
     · simp only [h2, if_true]; rfl
     · simp only [h2, if_false]
 
